@@ -84,6 +84,7 @@ C15Params ==
           ELSE {})
     \cup { <<"bytes", sx, "-", "-", "-", "-">> : sx \in DOMAIN StrPool }
     \cup { <<"scope", "-", "-", "-", "-", "-">> }
+    \cup { <<"line1", s1, "-", "-", "-", "-">> : s1 \in {"var", "lit", "call"} }
 
 Kv == Nm(<<107, 118>>)
 Sv == Nm(<<115>>)
@@ -102,6 +103,17 @@ C15ProgOf(p) ==
               SPrint(EBin("==", EBin("+", ERIndex(Sv, ENone, I(0)), ERIndex(Sv, I(0), ENone)), Sv)),
               SPrint(EBin("==", Sv, EBin("+", EStr(<<>>), Sv))),
               SPrint(Sv)>>
+      \* the program starts with an interpolated string (line 1, column 1); interpolated strings nested in slots
+      \* are positioned from 1:1 again: same coordinates, other texts
+      [] p[1] = "line1" ->
+            <<SExpr(EIStr(<<Lit(<<>>), SlotP(0, EStr(<<122>>)), Lit(<<>>)>>)),
+              SDecl(Vv, EStr(<<118, 195, 188>>)),
+              SFn(<<105, 100>>, <<Nm(<<120>>)>>, FALSE, <<SReturn(Nm(<<120>>))>>),
+              SPrint(EIStr(<<Lit(<<>>), SlotP(0, EIStr(<<Lit(<<>>), SlotP(0, SlotEs[p[2]]), Lit(<<>>)>>)), Lit(<<>>)>>)),
+              SPrint(EIStr(<<Lit(<<60>>), SlotP(0, EIStr(<<Lit(<<>>), SlotP(0, EStr(<<119>>)), Lit(<<33>>)>>)), Lit(<<62>>),
+                             SlotP(0, EIStr(<<Lit(<<>>), SlotP(0, SlotEs[p[2]]), Lit(<<63>>)>>)), Lit(<<>>)>>)),
+              SExpr(EIStr(<<Lit(<<>>), SlotP(0, Vv), Lit(<<>>)>>)),
+              SPrint(EIStr(<<Lit(<<>>), SlotP(0, EStr(<<113>>)), Lit(<<>>)>>))>>
       \* a slot is evaluated in the current scope (the innermost binding wins)
       [] p[1] = "scope" ->
             <<SDecl(Vv, EStr(<<111>>)),
